@@ -261,6 +261,40 @@ def r18(body):
     return _sub(r"\bString::from\(\s*(\w+)\s*\)", lambda m: "vx_string_from(%s)" % m.group(1), body)
 
 
+@rule("R11", "E.map(|_| V) -> match E { Some(_) => Some(V), None => None }   [Option::map on a closure that ignores its argument]")
+def r11(body):
+    count = 0
+    for m in list(re.finditer(r"\.\s*map\(\s*\|\s*_\s*\|", body)):
+        # receiver: back to the start of the expression statement (after `{`, `;` or `=`)
+        i = m.start()
+        k = i
+        depth = 0
+        while k > 0:
+            ch = body[k - 1]
+            if ch in ")]}":
+                depth += 1
+            elif ch in "([{":
+                if depth == 0:
+                    break
+                depth -= 1
+            elif ch in ";=" and depth == 0:
+                break
+            k -= 1
+        recv = body[k:i].strip()
+        j = _match_brace(body, body.index("(", m.start() + 1))
+        val = body[m.end():j].strip()
+        new = " match %s { Some(_) => Some(%s), None => None }" % (" ".join(recv.split()), val)
+        body = body[:k] + _pad(body[k:j + 1], new) + body[j + 1:]
+        count += 1
+        break
+    return body, count
+
+
+@rule("R23", "core::cmp::min(A, B) / max(A, B) -> vx_min_usize(A, B) / vx_max_usize(A, B)   [trusted std contract at type usize]")
+def r23(body):
+    return _sub(r"\bcore::cmp::(min|max)\(", lambda m: "vx_%s_usize(" % m.group(1), body)
+
+
 @rule("R20", "let X = E.map(|p| BODY).unwrap_or(D); -> let X = match E { Some(p) => BODY, None => D };   [std definition of Option::map + unwrap_or; Verus gives an un-annotated closure no postcondition]")
 def r20(body):
     count = 0
